@@ -2,36 +2,60 @@
 (***************************************************************************)
 (* Rank / select over bit vectors longer than 2^32 bits (properties C01,   *)
 (* C02 where the "ranksel" family cannot go: its positions are TLC         *)
-(* integers).  The abstract vector is its length and the strictly          *)
-(* increasing sequence of the positions of its ones, as base-2^15 limb     *)
-(* sequences (Wide.tla); the number of ones is small, so ranks of ones are *)
-(* plain naturals while positions and ranks of zeros are wide.             *)
+(* integers).  The abstract vector is its length and a short sequence of   *)
+(* disjoint, increasing runs of ones [s, e), all as base-2^15 limb         *)
+(* sequences (Wide.tla): sparse vectors are runs of length one, dense      *)
+(* ones a few long runs.                                                   *)
 (*                                                                         *)
-(*   rank(p)        = |{i : ones[i] < min(p, len)}|                        *)
+(*   rank(p)        = sum over runs of |[s, e) /\ [0, min(p, len))|        *)
 (*   rank_zero(p)   = p - rank(p)                  (trait definition)      *)
-(*   select(r)      = ones[r + 1] if r < m, else None                      *)
-(*   select_zero(r) = r + |{j : ones[j] - (j - 1) <= r}| if r < len - m    *)
-(*                    (the zeros before the j-th one are ones[j] - (j-1)), *)
-(*                    else None                                            *)
+(*   select(r)      = s_k + (r - ones before run k) for the run k that     *)
+(*                    holds the one of rank r; None if r >= m              *)
+(*   select_zero(r) = the same over the complementary runs                 *)
 (***************************************************************************)
 EXTENDS Wide, Naturals, Sequences, FiniteSets
 
 VARIABLES blen,     \* length (wide)
-          ones,     \* sequence of wide positions, strictly increasing, < blen
+          runs,     \* sequence of <<s, e>> (wide), s < e, e_k < s_{k+1}, e <= blen
           built     \* the structure exists (its constructor returned)
-bigvars == <<blen, ones, built>>
+bigvars == <<blen, runs, built>>
 
-M == Len(ones)
-WellFormed == /\ \A i \in 1 .. M : WLess(ones[i], blen)
-              /\ \A i \in 1 .. (M - 1) : WLess(ones[i], ones[i + 1])
+K == Len(runs)
+WellFormedRuns(rs, n) ==
+    /\ \A k \in 1 .. Len(rs) : WLess(rs[k][1], rs[k][2]) /\ WLeq(rs[k][2], n)
+    /\ \A k \in 1 .. (Len(rs) - 1) : WLess(rs[k][2], rs[k + 1][1])
+WellFormed == WellFormedRuns(runs, blen)
 
 WMin(a, b) == IF WLess(a, b) THEN a ELSE b
-RankN(p)     == Cardinality({i \in 1 .. M : WLess(ones[i], WMin(p, blen))})
-NumZerosW    == WSub(blen, WOfNat(M))
-\* zeros strictly before the i-th one (1-based)
-ZerosBefore(i) == WSub(ones[i], WOfNat(i - 1))
-SelectZeroW(r) == WAdd(r, WOfNat(Cardinality({j \in 1 .. M : WLeq(ZerosBefore(j), r)})))
-BitAt(p) == \E i \in 1 .. M : ones[i] = p
+WMax(a, b) == IF WLess(a, b) THEN b ELSE a
+\* |[s, e) /\ [0, q)|
+Below(run, q) == IF WLeq(q, run[1]) THEN WZero ELSE WSub(WMin(q, run[2]), run[1])
+
+RECURSIVE SumBelow(_, _, _)
+SumBelow(rs, k, q) == IF k = 0 THEN WZero ELSE WAdd(SumBelow(rs, k - 1, q), Below(rs[k], q))
+RankIn(rs, n, p) == SumBelow(rs, Len(rs), WMin(p, n))
+CountOf(rs, n)   == RankIn(rs, n, n)
+
+\* r-th element (wide r) of the union of the runs, << >> if there is none
+RECURSIVE SelIn(_, _, _)
+SelIn(rs, k, r) ==
+    IF k > Len(rs) THEN <<>>
+    ELSE LET sz == WSub(rs[k][2], rs[k][1]) IN
+         IF WLess(r, sz) THEN <<WAdd(rs[k][1], r)>> ELSE SelIn(rs, k + 1, WSub(r, sz))
+
+\* the complementary runs (zeros) of a well-formed run list
+Gaps(rs, n) ==
+    LET starts == <<WZero>> \o [k \in 1 .. Len(rs) |-> rs[k][2]]
+        ends   == [k \in 1 .. Len(rs) |-> rs[k][1]] \o <<n>>
+        all    == [k \in 1 .. (Len(rs) + 1) |-> <<starts[k], ends[k]>>]
+    IN  SelectSeq(all, LAMBDA g : WLess(g[1], g[2]))
+
+Rank(p)       == RankIn(runs, blen, p)
+NumOnes       == CountOf(runs, blen)
+NumZeros      == WSub(blen, NumOnes)
+Select(r)     == SelIn(runs, 1, r)
+SelectZero(r) == SelIn(Gaps(runs, blen), 1, r)
+BitAt(p)      == \E k \in 1 .. K : WLeq(runs[k][1], p) /\ WLess(p, runs[k][2])
 
 \* the first reason for which a recorded call differs from what the vector admits
 \* ("na": the stack does not offer the operation -- a compile-time fact)
@@ -42,37 +66,43 @@ Why(ev) ==
     ELSE CASE
        o = "len"        -> IF ev.out # "ret" THEN "outcome" ELSE IF ev.res # blen THEN "len" ELSE "ok"
     [] o \in {"num_ones", "count_ones"} ->
-                           IF ev.out # "ret" THEN "outcome" ELSE IF ev.res # WOfNat(M) THEN "num-ones" ELSE "ok"
-    [] o = "num_zeros"  -> IF ev.out # "ret" THEN "outcome" ELSE IF ev.res # NumZerosW THEN "num-zeros" ELSE "ok"
+                           IF ev.out # "ret" THEN "outcome" ELSE IF ev.res # NumOnes THEN "num-ones" ELSE "ok"
+    [] o = "num_zeros"  -> IF ev.out # "ret" THEN "outcome" ELSE IF ev.res # NumZeros THEN "num-zeros" ELSE "ok"
     [] o = "index"      -> IF WLess(ev.p, blen)
                            THEN (IF ev.out # "ret" THEN "outcome" ELSE IF ev.res # BitAt(ev.p) THEN "bit" ELSE "ok")
                            ELSE (IF ev.out # "panic" THEN "outcome" ELSE "ok")
     [] o = "rank"       -> IF ev.out # "ret" THEN "outcome"
-                           ELSE IF ev.res # WOfNat(RankN(ev.p)) THEN "rank" ELSE "ok"
+                           ELSE IF ev.res # Rank(ev.p) THEN "rank" ELSE "ok"
     [] o = "rank_zero"  -> IF ev.out # "ret" THEN "outcome"
-                           ELSE IF ev.res # WSub(ev.p, WOfNat(RankN(ev.p))) THEN "rank-zero" ELSE "ok"
+                           ELSE IF ev.res # WSub(ev.p, Rank(ev.p)) THEN "rank-zero" ELSE "ok"
     [] o = "select"     -> IF ev.out # "ret" THEN "outcome"
-                           ELSE IF WIsSmall(ev.r) /\ WToNat(ev.r) < M
-                                THEN (IF ev.res # <<ones[WToNat(ev.r) + 1]>> THEN "select" ELSE "ok")
-                                ELSE (IF ev.res # <<>> THEN "select-past-count" ELSE "ok")
+                           ELSE IF ev.res # Select(ev.r) THEN "select" ELSE "ok"
     [] o = "select_zero" -> IF ev.out # "ret" THEN "outcome"
-                           ELSE IF WLess(ev.r, NumZerosW)
-                                THEN (IF ev.res # <<SelectZeroW(ev.r)>> THEN "select-zero" ELSE "ok")
-                                ELSE (IF ev.res # <<>> THEN "select-zero-past-count" ELSE "ok")
+                           ELSE IF ev.res # SelectZero(ev.r) THEN "select-zero" ELSE "ok"
     [] o = "mem_size"   -> IF ev.out # "ret" THEN "outcome" ELSE "ok"
     [] OTHER -> "unknown-op"
 
-BigInit == blen = <<>> /\ ones = <<>> /\ built = FALSE
+BigInit == blen = <<>> /\ runs = <<>> /\ built = FALSE
 
 (***************************************************************************)
 (* Sanity of the definitions on small vectors (checked by TLC in           *)
-(* MC_RankSelBig): select_zero and rank_zero agree with counting.          *)
+(* MC_RankSelBig): rank, select and select_zero over runs agree with       *)
+(* counting on the set of one positions.                                   *)
 (***************************************************************************)
-SmallDefsOK(n, S) ==      \* S: set of one positions < n (plain naturals)
-    LET os == [i \in 1 .. Cardinality(S) |-> WOfNat(CHOOSE x \in S : Cardinality({y \in S : y < x}) = i - 1)]
-        zs == {p \in 0 .. (n - 1) : p \notin S}
-    IN  \A r \in 0 .. (Cardinality(zs) - 1) :
-          LET z == CHOOSE p \in zs : Cardinality({q \in zs : q < p}) = r
-              cnt == Cardinality({j \in 1 .. Len(os) : WLeq(WSub(os[j], WOfNat(j - 1)), WOfNat(r))})
-          IN  z = r + cnt
+RunsOfSet(S, n) ==      \* maximal runs of a set of positions, as wide pairs
+    LET st == {p \in S : (p - 1) \notin S}
+        nth(T, i) == CHOOSE x \in T : Cardinality({y \in T : y < x}) = i - 1
+        endOf(s) == CHOOSE e \in s + 1 .. n : (\A q \in s .. (e - 1) : q \in S) /\ e \notin S
+    IN  [i \in 1 .. Cardinality(st) |-> <<WOfNat(nth(st, i)), WOfNat(endOf(nth(st, i)))>>]
+
+SmallDefsOK(n, S) ==
+    LET rs == RunsOfSet(S, n)
+        zs == (0 .. (n - 1)) \ S
+        nth(T, i) == CHOOSE x \in T : Cardinality({y \in T : y < x}) = i
+    IN  /\ WellFormedRuns(rs, WOfNat(n))
+        /\ \A p \in 0 .. (n + 1) : RankIn(rs, WOfNat(n), WOfNat(p)) = WOfNat(Cardinality({x \in S : x < p}))
+        /\ \A r \in 0 .. Cardinality(S) :
+              SelIn(rs, 1, WOfNat(r)) = (IF r < Cardinality(S) THEN <<WOfNat(nth(S, r))>> ELSE <<>>)
+        /\ \A r \in 0 .. Cardinality(zs) :
+              SelIn(Gaps(rs, WOfNat(n)), 1, WOfNat(r)) = (IF r < Cardinality(zs) THEN <<WOfNat(nth(zs, r))>> ELSE <<>>)
 =============================================================================
